@@ -346,7 +346,7 @@ def class_case(ctx, kind, alg):
     okcols = [o for o in range(cols) if not np.all(np.isnan(Fn[:, o]))]
     if not okcols:
         return None
-    rtol = rng.choice([0.05, 0.01, 0.02])
+    rtol = rng.choice([0.05, 0.01, 0.02, 0.002, 0.1])
     form = rng.choice(["int", "list", "find_min"])
     o0 = rng.choice(okcols)
     poles = sorted({float(v) for v in Fn[:, o0] if not math.isnan(v) and v > 0.2})
@@ -357,8 +357,10 @@ def class_case(ctx, kind, alg):
     picks = picks[: rng.randint(1, 3)] if picks else [1.0]
     freq = []
     for p in picks:
-        u = rng.random()
-        freq.append(p * (1 + (0.3 * rtol * rng.uniform(-1, 1) if u < 0.7 else rng.choice([-1, 1]) * rng.uniform(1.5, 2.5) * rtol)))
+        # distances on both sides of the tolerance actually requested (0.3..0.9 rtol inside, 1.2..2.5 rtol outside), so that
+        # a tolerance other than the user's (a default, a mis-routed argument) changes the outcome
+        frac = rng.choice([0.3, 0.6, 0.9, 0.9, 1.2, 1.2, 2.5]) * rng.uniform(0.97, 1.03)
+        freq.append(p / (1 + rng.choice([-1, 1]) * frac * rtol))
     if form == "int":
         order = o0
     elif form == "list":
